@@ -4,9 +4,10 @@
 A seed is kept only when I confirmed myself (tools/seedcheck.py --suite, in a scratch worktree of /repo HEAD): the patch
 applies, the demo passes on the clean tree and fails on the patched tree, and the repository's own test-suite shows no
 failure beyond the 8 tests that always fail in this sandbox (BASELINE.json always_fail)."""
-import json, os, shutil, glob, subprocess
+import json, os, shutil, glob, subprocess, sys
+PATTERN = sys.argv[1] if len(sys.argv) > 1 else "*"      # e.g. "*_i" to import one round only
 head = subprocess.run(["git", "-C", "/repo", "rev-parse", "--short", "HEAD"], capture_output=True, text=True).stdout.strip()
-for sj in sorted(glob.glob("/tmp/seedresults/*.suite.json")):
+for sj in sorted(glob.glob("/tmp/seedresults/%s.suite.json" % PATTERN)):
     name = os.path.basename(sj)[:-len(".suite.json")]
     try:
         s = json.load(open(sj))
